@@ -345,6 +345,7 @@ def check_c19(ctx, R):
     _e_args(ctx, R)
     R.rule("E2", "no announcement precedes one of the mutator's own assert/raise (no phantom announcement)")
     R.rule("E3", "every relation write is announced before it takes effect")
+    R.rule("E5", "the element a relation write concerns is one of the objects named by the announcement dispatched before it in the same function")
     n_pub = 0
     seen_origin = {}
     n_writes = 0
@@ -359,6 +360,12 @@ def check_c19(ctx, R):
                       % (f.qualname, short(ev.stmt, 60), ", ".join(pend)), {"pending": pend})
         elif s.notifies:
             R.ok("E2", f.qualname, f.loc())
+        for ev, el, here in getattr(s, "e5", []):
+            R.bad("E5", "%s|%s.%s|%s" % (f.key, ev.cls, ev.field, el), f.loc(ev.stmt),
+                  "%s: `%s` changes the relation for `%s`, but the announcement dispatched before it (%s) names other objects: a listener replaying the "
+                  "announcements records a different change than the one made" % (f.qualname, short(ev.stmt, 60), el, "; ".join("%s(%s)" % (k, ", ".join(a)) for k, a in here)))
+        if s.notifies and not getattr(s, "e5", []) and any(w[0] != "fresh" for w in s.writes):
+            R.ok("E5", f.qualname, f.loc())
         if not is_public_entry(f):
             continue
         n_pub += 1
